@@ -1,5 +1,5 @@
 (** C17 — OwningAddr hands back the actor's final state exactly once. Statements only. *)
-From Hannibal Require Import Model.Sys Inv.Mailbox Inv.Step Inv.Loop Inv.C12 Inv.C06.
+From Hannibal Require Import Model.Sys Inv.Mailbox Inv.Step Inv.Loop Inv.C12 Inv.C06 Inv.C17 Inv.C17b.
 
 (** A join (or consume) returns the actor value only after the actor's task has ended, only when
     it ended gracefully, and the value is the exit value recorded at that end. *)
@@ -60,3 +60,50 @@ Proof.
   eexists _, _. cbn. rewrite !upd_same. repeat split.
 Qed.
 Print Assumptions C17_first_join_takes_handle.
+
+(** * Exactly once, over whole executions
+
+    In every reachable state at most one join / consume per actor can still receive the value
+    (a "taker": it found the task handle; every other join / consume was answered None / Err on
+    the spot), and a taker exists only once the handle has been taken ... *)
+Theorem C17_one_taker_per_actor :
+  forall tr s, run init tr = Acc s ->
+  (forall o1 o2 p1 p2, ops s o1 = Some p1 -> ops s o2 = Some p2 -> taker p1 -> taker p2 ->
+     op_a p1 = op_a p2 -> o1 = o2)
+  /\ (forall o p, ops s o = Some p -> taker p -> exists x, actors s (op_a p) = Some x /\ a_task x = THTaken).
+Proof.
+  intros tr s H. pose proof (take_inv_run _ _ _ take_inv_init H) as [A B C]. split; [exact B | exact A].
+Qed.
+Print Assumptions C17_one_taker_per_actor.
+
+(** ... a join / consume that returns the actor value is that taker ... *)
+Theorem C17_value_only_to_the_taker :
+  forall tr s o r s' p, run init tr = Acc s -> step s (EvRet o r) = Acc s' -> ops s o = Some p ->
+  joinish p -> is_value r -> taker p.
+Proof. intros tr s o r s' p H. apply value_needs_taker. exact (take_inv_run _ _ _ take_inv_init H). Qed.
+Print Assumptions C17_value_only_to_the_taker.
+
+(** ... hence no execution, however long, hands out the value of one actor twice: two returns of
+    join / consume operations on the same actor cannot both carry a value. *)
+Theorem C17_value_handed_out_at_most_once :
+  forall t1 t2 s1 s1' s2 s2' o1 o2 r1 r2 p1 p2,
+  run init t1 = Acc s1 -> step s1 (EvRet o1 r1) = Acc s1' -> run s1' t2 = Acc s2 -> step s2 (EvRet o2 r2) = Acc s2' ->
+  ops s1 o1 = Some p1 -> ops s2 o2 = Some p2 -> joinish p1 -> joinish p2 -> op_a p1 = op_a p2 ->
+  is_value r1 -> is_value r2 -> False.
+Proof. exact value_at_most_once. Qed.
+Print Assumptions C17_value_handed_out_at_most_once.
+
+(** the hypotheses are met: a join that takes the handle, a second join answered None, the
+    value returned once *)
+Example C17_two_joins :
+  let c := {| sc_bound := None; sc_timeout := None; sc_failto := false; sc_strat := RestartOnly;
+              sc_stream := false; sc_entry := 1; sc_ty := 0 |} in
+  accepts [EvSpawn 0 c; EvHandle 0 0 KOwning; EvJoinNew 0 0; EvOp 1 0 0 OJoin 0 0; EvJoinNew 1 0; EvOp 2 0 1 OJoin 0 0;
+           EvRet 2 RNone; EvHandle 1 0 KAddr; EvOp 3 0 1 OStop 0 0; EvRet 3 ROk;
+           EvCbBegin 0 CbStarted; EvCbEnd 0 CbStarted CbOk; EvDeq 0 PkStop; EvCbBegin 0 CbStopped; EvCbEnd 0 CbStopped CbOk;
+           EvTaskEnd 0 EndReturned; EvRet 1 (RSomeV [])] = true
+  /\ accepts [EvSpawn 0 c; EvHandle 0 0 KOwning; EvJoinNew 0 0; EvOp 1 0 0 OJoin 0 0; EvJoinNew 1 0; EvOp 2 0 1 OJoin 0 0;
+           EvHandle 1 0 KAddr; EvOp 3 0 1 OStop 0 0; EvRet 3 ROk;
+           EvCbBegin 0 CbStarted; EvCbEnd 0 CbStarted CbOk; EvDeq 0 PkStop; EvCbBegin 0 CbStopped; EvCbEnd 0 CbStopped CbOk;
+           EvTaskEnd 0 EndReturned; EvRet 1 (RSomeV []); EvRet 2 (RSomeV [])] = false.
+Proof. vm_compute. split; reflexivity. Qed.
